@@ -382,7 +382,14 @@ def _appenduid_ctor(ex, frame, e):
     return RefS('AppendUid').fresh('appenduid')
 
 
+def _add_recent_site(ex, frame, e, base=None):
+    """bound at the call site (not through the registry, which a property may override with the proved contract of
+    SessionFlags.add_recent for its own purposes): the effect check must not be lost"""
+    return _add_recent(ex, frame, e, base if base is not None else ex.eval(e.func.value, frame))
+
+
 CALLS = {
+    'dest_selected.session_flags.add_recent': _add_recent_site,
     'SelectedMailbox': _sel_ctor, 'PermanentFlags': _rec_ctor(FL.PermS), 'SessionFlags': _rec_ctor(FL.SessS),
     'AppendUid': _appenduid_ctor, 'CopyUid': _copyuid_ctor,
     'shield': lambda ex, frame, e: ex.eval(e.args[0], frame),
